@@ -29,5 +29,22 @@ func verifOrderCases(casesByServer map[serverInstance][]*conformancev1.TestCase)
 		sort.Slice(cases, func(i, j int) bool {
 			return cases[i].Request.TestName < cases[j].Request.TestName
 		})
+		switch verifCaseOrder {
+		case "rev":
+			for i, j := 0, len(cases)-1; i < j; i, j = i+1, j-1 {
+				cases[i], cases[j] = cases[j], cases[i]
+			}
+		case "rot":
+			if len(cases) > 1 {
+				first := cases[0]
+				copy(cases, cases[1:])
+				cases[len(cases)-1] = first
+			}
+		}
 	}
 }
+
+// verifCaseOrder lets a harness choose which fixed order that is: "" by name,
+// "rev" by name descending, "rot" by name rotated by one - a real batch comes
+// out of a map in any order, so nothing may depend on it being sorted.
+var verifCaseOrder string
